@@ -61,6 +61,19 @@ def refStep (d : Dialect) (m : RMap Val) : Op → Ret × RMap Val
   | .clear => (.unit, clear m)
   | .entry k n => (.slot (.item (orInsert m k (.int n)).2), (orInsert m k (.int n)).1)
   | .entocc k => (.bool (contains m k), m)
+  -- the Entry API: the entry of `k` is occupied iff `get m k` finds a value
+  | .entwith k n => (.slot (.item (orInsert m k (.int n)).2), (orInsert m k (.int n)).1)
+  | .entrem k =>
+    match get m k with
+    | some v => (.opt (some (.item v)), (remove m k).1)
+    | none => (.opt none, m)
+  | .entins k n => (.opt (optSlot (insert m k (.int n)).2), (insert m k (.int n)).1)
+  | .entget k => (.kv ((getKeyValue m k).map pairSlot), m)
+  | .entmut k n =>
+    match get m k with
+    | some v => (.opt (some (.item v)), put m k (some (.int n)))
+    | none => (.opt none, m)
+  | .entkey k => (.bool (contains m k), m)
   | .idx k =>
     match get m k with
     | some v => (.slot (.item v), m)
@@ -160,6 +173,29 @@ theorem oldRet_repaired (d : Dialect) (o : Option Slot) : oldRet repaired d o = 
   unfold oldRet
   cases d <;> rfl
 
+/-- `entry(k).or_insert(v)` / `or_insert_with`, repaired code, against the reference's `orInsert` -/
+theorem orInsert_refines (d : Dialect) (m : Items) (k n : Nat) :
+    (Ret.slot (.item (orInsert (abs m) k (.int n)).2), (orInsert (abs m) k (.int n)).1) =
+      ((orInsertStep repaired d m k n).1, abs (orInsertStep repaired d m k n).2) := by
+  simp only [orInsertStep, orInsert]
+  have hg := get_abs m k
+  cases h : imGet m k with
+  | none =>
+    rw [h] at hg
+    simp only [Option.bind_none] at hg
+    simp only [hg]
+    exact congrArg _ (put_abs_push m k (.item (.int n)) h)
+  | some s =>
+    rw [h] at hg
+    cases s with
+    | placeholder =>
+      simp only [Option.bind_some, slotOpt] at hg
+      simp only [hg]
+      cases d <;> exact congrArg _ (put_abs_set m k (.item (.int n)) (by simp [h]))
+    | item v =>
+      simp only [Option.bind_some, slotOpt] at hg
+      simp only [hg]
+
 /-- One call: the repaired model returns what the reference returns, and the abstraction of its new
     state is the reference's new state. -/
 theorem step_refines (d : Dialect) (m : Items) (op : Op) :
@@ -205,25 +241,60 @@ theorem step_refines (d : Dialect) (m : Items) (op : Op) :
     cases d <;> simp [dIter, repaired]
   | values => simp [refStep, step]
   | clear => simp [refStep, step, clear]
-  | entry k n =>
-    simp only [refStep, step, orInsert]
+  | entry k n => simp only [refStep, step]; exact orInsert_refines d m k n
+  | entwith k n => simp only [refStep, step]; exact orInsert_refines d m k n
+  | entrem k =>
+    simp only [refStep, step, entryOf_repaired, Spec.OrdMap.remove]
     have hg := get_abs m k
     cases h : imGet m k with
     | none =>
       rw [h] at hg
       simp only [Option.bind_none] at hg
-      simp only [hg]
-      exact congrArg _ (put_abs_push m k (.item (.int n)) h)
+      simp only [hg, vis]
     | some s =>
       rw [h] at hg
       cases s with
       | placeholder =>
         simp only [Option.bind_some, slotOpt] at hg
-        simp only [hg]
-        cases d <;> exact congrArg _ (put_abs_set m k (.item (.int n)) (by simp [h]))
+        simp only [hg, vis]
       | item v =>
         simp only [Option.bind_some, slotOpt] at hg
-        simp only [hg]
+        simp only [hg, vis, eraseP_abs]
+  | entins k n =>
+    simp only [refStep, step, entryOf_repaired, Spec.OrdMap.insert, optSlot_get_abs]
+    have hp := put_abs m k (.item (.int n))
+    simp only [slotOpt] at hp
+    rw [hp]
+    cases h : imGet m k with
+    | none => simp only [vis]
+    | some s =>
+      cases s with
+      | placeholder => simp only [vis]
+      | item v => simp only [vis, imInsert, h]
+  | entget k => simp only [refStep, step, entryOf_repaired, kv_abs]
+  | entmut k n =>
+    simp only [refStep, step, entryOf_repaired]
+    have hg := get_abs m k
+    cases h : imGet m k with
+    | none =>
+      rw [h] at hg
+      simp only [Option.bind_none] at hg
+      simp only [hg, vis]
+    | some s =>
+      rw [h] at hg
+      cases s with
+      | placeholder =>
+        simp only [Option.bind_some, slotOpt] at hg
+        simp only [hg, vis]
+      | item v =>
+        simp only [Option.bind_some, slotOpt] at hg
+        simp only [hg, vis]
+        exact congrArg _ (put_abs_set m k (.item (.int n)) (by simp [h]))
+  | entkey k =>
+    simp only [refStep, step, entryOf_repaired, contains_abs, dHas]
+    cases h : imGet m k with
+    | none => rfl
+    | some s => cases s <;> rfl
   | entocc k =>
     simp only [refStep, step, contains_abs, dHas]
     cases h : imGet m k with
@@ -406,14 +477,18 @@ theorem step_noPh (fx : Fix) (d : Dialect) (m : Items) (h : NoPh m) (op : Op) :
   | empty => simp only [step, dLen_noPh fx d m h]
   | iter => simp only [step, dIter_noPh fx d m h]
   | keys => simp only [step, dIter_noPh fx d m h]
-  | entry k n =>
-    simp only [step]
-    have := imGet_noPh m h k
-    cases hg : imGet m k with
-    | none => rfl
-    | some s => cases s with
-      | placeholder => exact absurd hg this
-      | item v => rfl
+  | entry k n => simp only [step, orInsertStep_of_ne fx d m k n (imGet_noPh m h k)]
+  | entwith k n => simp only [step, orInsertStep_of_ne fx d m k n (imGet_noPh m h k)]
+  | entrem k =>
+    simp only [step, entryOf_of_ne fx d m k (imGet_noPh m h k), entryOf_of_ne repaired d m k (imGet_noPh m h k)]
+  | entins k n =>
+    simp only [step, entryOf_of_ne fx d m k (imGet_noPh m h k), entryOf_of_ne repaired d m k (imGet_noPh m h k)]
+  | entget k =>
+    simp only [step, entryOf_of_ne fx d m k (imGet_noPh m h k), entryOf_of_ne repaired d m k (imGet_noPh m h k)]
+  | entmut k n =>
+    simp only [step, entryOf_of_ne fx d m k (imGet_noPh m h k), entryOf_of_ne repaired d m k (imGet_noPh m h k)]
+  | entkey k =>
+    simp only [step, entryOf_of_ne fx d m k (imGet_noPh m h k), entryOf_of_ne repaired d m k (imGet_noPh m h k)]
   | entocc k =>
     simp only [step]
     have := imGet_noPh m h k
@@ -451,6 +526,14 @@ theorem noPh_extend (kvs : List (Nat × Nat)) (m : Items) (h : NoPh m) :
     simp only [imExtend, List.map_cons, List.foldl_cons] at ih ⊢
     exact ih _ (noPh_insert m h kv.1 (.int kv.2))
 
+theorem noPh_orInsert (d : Dialect) (m : Items) (h : NoPh m) (k n : Nat) : NoPh (orInsertStep repaired d m k n).2 := by
+  simp only [orInsertStep]
+  cases hg : imGet m k with
+  | none => exact noPh_push m h k _
+  | some s => cases s with
+    | placeholder => cases d <;> exact noPh_set m h k _
+    | item v => exact h
+
 /-- a call other than `&mut c[k]` creates no placeholder -/
 theorem noPh_step (d : Dialect) (m : Items) (h : NoPh m) (op : Op) (hop : indexesMutably op = false) :
     NoPh (step repaired d m op).2 := by
@@ -470,13 +553,25 @@ theorem noPh_step (d : Dialect) (m : Items) (h : NoPh m) (op : Op) (hop : indexe
   | hasv k => cases d <;> exact h
   | hast k => cases d <;> exact h
   | clear => intro e he; simp [step] at he
-  | entry k n =>
-    simp only [step]
-    cases hg : imGet m k with
-    | none => exact noPh_push m h k _
-    | some s => cases s with
-      | placeholder => cases d <;> exact noPh_set m h k _
-      | item v => exact h
+  | entry k n => exact noPh_orInsert d m h k n
+  | entwith k n => exact noPh_orInsert d m h k n
+  | entrem k =>
+    simp only [step, entryOf_repaired]
+    cases vis (imGet m k) with
+    | none => exact h
+    | some s => exact fun e he => h e (mem_shiftRemove m k e he)
+  | entins k n =>
+    simp only [step, entryOf_repaired]
+    cases vis (imGet m k) with
+    | none => exact noPh_insert m h k _
+    | some s => exact noPh_set m h k _
+  | entget k => simp only [step, entryOf_repaired]; exact h
+  | entmut k n =>
+    simp only [step, entryOf_repaired]
+    cases vis (imGet m k) with
+    | none => exact h
+    | some s => exact noPh_set m h k _
+  | entkey k => simp only [step, entryOf_repaired]; exact h
   | entocc k =>
     simp only [step]
     cases hg : imGet m k with
@@ -547,23 +642,34 @@ example : [Op.ins 0 1, .ins 1 2, .rem 0, .entry 0 3, .retain, .sortby, .extend [
 /-! ## the code after the four small repairs (`afterPatches`) -/
 
 /-- calls on which `afterPatches` still differs from the reference: asking whether an entry is
-    occupied, and `InlineTable::entry` (its own `entry`, not the one of `TableLike`) -/
+    occupied — directly, or by what the `Occupied` / `Vacant` branch does (`remove`, `insert`, `get`,
+    `get_mut`, `key`) —, and `InlineTable::entry` (its own `entry`, not the one of `TableLike`) -/
 def touchesEntryClassification (d : Dialect) : Op → Bool
   | .entocc _ => true
-  | .entry _ _ => d == .inline
+  | .entrem _ | .entins _ _ | .entget _ | .entmut _ _ | .entkey _ => true
+  | .entry _ _ | .entwith _ _ => d == .inline
   | _ => false
+
+theorem orInsertStep_afterPatches (d : Dialect) (m : Items) (k n : Nat) (h : (d == .inline) = false) :
+    orInsertStep afterPatches d m k n = orInsertStep repaired d m k n := by
+  simp only [orInsertStep]
+  cases hg : imGet m k with
+  | none => rfl
+  | some s => cases s with
+    | placeholder => cases d <;> first | rfl | simp at h
+    | item v => rfl
 
 theorem step_afterPatches (d : Dialect) (m : Items) (op : Op) (h : touchesEntryClassification d op = false) :
     step afterPatches d m op = step repaired d m op := by
   cases op with
   | entocc k => simp [touchesEntryClassification] at h
-  | entry k n =>
-    simp only [step]
-    cases hg : imGet m k with
-    | none => rfl
-    | some s => cases s with
-      | placeholder => cases d <;> first | rfl | simp [touchesEntryClassification] at h
-      | item v => rfl
+  | entry k n => simp only [step]; exact orInsertStep_afterPatches d m k n (by simpa [touchesEntryClassification] using h)
+  | entwith k n => simp only [step]; exact orInsertStep_afterPatches d m k n (by simpa [touchesEntryClassification] using h)
+  | entrem k => simp [touchesEntryClassification] at h
+  | entins k n => simp [touchesEntryClassification] at h
+  | entget k => simp [touchesEntryClassification] at h
+  | entmut k n => simp [touchesEntryClassification] at h
+  | entkey k => simp [touchesEntryClassification] at h
   | _ => rfl
 
 theorem run_afterPatches (d : Dialect) (ops : List Op)
@@ -930,6 +1036,154 @@ example : (imGet (step repaired .table [(1, .item (.int 5))] (.idxmut 0)).2 0).i
     (step repaired .table (step repaired .table [(1, .item (.int 5))] (.idxmut 0)).2 (.ins 0 7)).2 =
       [(1, .item (.int 5)), (0, .item (.int 7))] := by decide
 
+/-! ## the Entry API (`entry(k)` then `remove` / `insert` / `get` / `get_mut` / `or_insert_with` / `key`)
+
+On a state without placeholders every configuration of the model — in particular `current`, the code
+as it is — takes the reference's step (`OrdMap.remove`, `insert` = `put` keeping the position or
+appending, `getKeyValue`, `orInsert`, `contains`).  With placeholders the same holds for `repaired`
+(`step_refines`, `T16_refine_table`, `T16_refine_inline`); what `current` does there is the class of
+the known findings, see `T16_finding_entry_api_on_placeholder`. -/
+
+theorem shiftRemove_none (m : Items) (k : Nat) (h : imGet m k = none) : (imShiftRemove m k).1 = m := by
+  induction m with
+  | nil => rfl
+  | cons e m ih =>
+    simp only [imGet] at h
+    by_cases hk : e.1 == k
+    · simp [hk] at h
+    · simp only [hk, Bool.false_eq_true, ↓reduceIte] at h
+      simp [imShiftRemove, hk, ih h]
+
+/-- the repaired model takes the reference's step on each of the six calls, from any state (placeholders included) -/
+theorem T16_refine_entry_api_repaired (d : Dialect) (m : Items) (k n : Nat) :
+    ∀ op ∈ [Op.entrem k, .entins k n, .entget k, .entmut k n, .entwith k n, .entkey k],
+      refStep d (abs m) op = ((step repaired d m op).1, abs (step repaired d m op).2) :=
+  fun op _ => step_refines d m op
+
+/-- **`match entry(k) { Occupied(e) => e.remove(), Vacant(_) => … }`**, any configuration, no placeholder
+    in the map: it is the reference's `remove` — the removed value (`none` = vacant) is returned, the key's
+    position disappears and all other entries keep their order (`eraseP`: shift-, not swap-removal). -/
+theorem T16_refine_entrem (fx : Fix) (d : Dialect) (m : Items) (k : Nat) (h : NoPh m) :
+    (step fx d m (.entrem k)).1 = .opt (optSlot (remove (abs m) k).2) ∧
+    abs (step fx d m (.entrem k)).2 = (remove (abs m) k).1 ∧
+    (step fx d m (.entrem k)).2 = m.eraseP (fun e => e.1 == k) ∧
+    refStep d (abs m) (.entrem k) = ((step fx d m (.entrem k)).1, abs (step fx d m (.entrem k)).2) := by
+  have hs : (step fx d m (.entrem k)).2 = (imShiftRemove m k).1 ∧
+      (step fx d m (.entrem k)).1 = .opt (imGet m k) := by
+    rw [step_noPh fx d m h]
+    simp only [step, entryOf_repaired, vis_noPh m h]
+    cases hg : imGet m k with
+    | none => exact ⟨(shiftRemove_none m k hg).symm, rfl⟩
+    | some s => exact ⟨rfl, rfl⟩
+  have hr := step_refines d m (.entrem k)
+  rw [← step_noPh fx d m h] at hr
+  refine ⟨?_, ?_, ?_, hr⟩
+  · rw [hs.2]; simp only [Spec.OrdMap.remove, optSlot_get_abs, vis_noPh m h]
+  · rw [hs.1]; simp only [Spec.OrdMap.remove, eraseP_abs]
+  · rw [hs.1, shiftRemove_eq_eraseP]
+
+/-- the hypothesis on a real state; the history of the seeded `swap_remove`: b, c, d keep their order -/
+example : NoPh [(0, .item (.int 0)), (1, .item (.int 1))] := by
+  intro e he
+  simp at he
+  rcases he with rfl | rfl <;> rfl
+example : (run current .table [] [.ins 0 0, .ins 1 1, .ins 2 2, .ins 3 3, .entrem 0, .iter]).1.getLast? =
+    some (.pairs [(1, .item (.int 1)), (2, .item (.int 2)), (3, .item (.int 3))]) := by decide
+
+/-- **`Occupied(e) => e.insert(v)`, `Vacant(e) => e.insert(v)`**, any configuration, no placeholder: the
+    reference's `insert` — the old value (`none` = vacant) is returned; an occupied key keeps its position,
+    a vacant one is appended. -/
+theorem T16_refine_entins (fx : Fix) (d : Dialect) (m : Items) (k n : Nat) (h : NoPh m) :
+    (step fx d m (.entins k n)).1 = .opt (optSlot (insert (abs m) k (.int n)).2) ∧
+    abs (step fx d m (.entins k n)).2 = (insert (abs m) k (.int n)).1 ∧
+    ((imGet m k).isSome → ((step fx d m (.entins k n)).2).map (·.1) = m.map (·.1)) ∧
+    (imGet m k = none → (step fx d m (.entins k n)).2 = m ++ [(k, .item (.int n))]) := by
+  have hr := step_refines d m (.entins k n)
+  rw [← step_noPh fx d m h] at hr
+  simp only [refStep, Prod.mk.injEq] at hr
+  refine ⟨hr.1.symm, hr.2.symm, ?_, ?_⟩
+  · intro hk
+    rw [step_noPh fx d m h]
+    simp only [step, entryOf_repaired, vis_noPh m h]
+    cases hg : imGet m k with
+    | none => simp [hg] at hk
+    | some s => simp [keys_imSet]
+  · intro hk
+    rw [step_noPh fx d m h]
+    simp [step, entryOf_repaired, hk, vis, imInsert, imPush]
+
+example : (imGet [(0, Slot.item (.int 0)), (1, .item (.int 1))] 0).isSome = true ∧
+    imGet [(0, Slot.item (.int 0)), (1, .item (.int 1))] 2 = none := by decide
+
+/-- **`Occupied(e) => (e.key(), e.get())`, `Vacant(e) => e.key()`**: the reference's `getKeyValue`; nothing changes. -/
+theorem T16_refine_entget (fx : Fix) (d : Dialect) (m : Items) (k : Nat) (h : NoPh m) :
+    (step fx d m (.entget k)).1 = .kv ((getKeyValue (abs m) k).map pairSlot) ∧
+    (step fx d m (.entget k)).2 = m := by
+  rw [step_noPh fx d m h]
+  simp only [step, entryOf_repaired, kv_abs, and_self]
+
+/-- **`Occupied(e) => *e.get_mut() = v` (`into_mut`)**: the old value is the reference's lookup; an occupied
+    key gets the new value at its position (`put`), a vacant one leaves the map alone. -/
+theorem T16_refine_entmut (fx : Fix) (d : Dialect) (m : Items) (k n : Nat) (h : NoPh m) :
+    (step fx d m (.entmut k n)).1 = .opt (optSlot (get (abs m) k)) ∧
+    abs (step fx d m (.entmut k n)).2 = (if contains (abs m) k then put (abs m) k (some (.int n)) else abs m) ∧
+    ((step fx d m (.entmut k n)).2).map (·.1) = m.map (·.1) := by
+  have hr := step_refines d m (.entmut k n)
+  rw [← step_noPh fx d m h] at hr
+  simp only [refStep] at hr
+  have hk : ((step fx d m (.entmut k n)).2).map (·.1) = m.map (·.1) := by
+    rw [step_noPh fx d m h]
+    simp only [step, entryOf_repaired]
+    cases vis (imGet m k) <;> simp [keys_imSet]
+  refine ⟨?_, ?_, hk⟩
+  · cases hg : get (abs m) k with
+    | none => rw [hg] at hr; simp only [Prod.mk.injEq] at hr; rw [← hr.1]; rfl
+    | some v => rw [hg] at hr; simp only [Prod.mk.injEq] at hr; rw [← hr.1]; rfl
+  · unfold contains
+    cases hg : get (abs m) k with
+    | none => rw [hg] at hr; simp only [Prod.mk.injEq] at hr; rw [← hr.2]; rfl
+    | some v => rw [hg] at hr; simp only [Prod.mk.injEq] at hr; rw [← hr.2]; rfl
+
+/-- **`entry(k).or_insert_with(|| v)`** is `entry(k).or_insert(v)` (any state, any configuration), and on a
+    state without placeholders the reference's `orInsert`. -/
+theorem T16_refine_entwith (fx : Fix) (d : Dialect) (m : Items) (k n : Nat) :
+    step fx d m (.entwith k n) = step fx d m (.entry k n) ∧
+    (NoPh m →
+      (step fx d m (.entwith k n)).1 = .slot (.item (orInsert (abs m) k (.int n)).2) ∧
+      abs (step fx d m (.entwith k n)).2 = (orInsert (abs m) k (.int n)).1) := by
+  refine ⟨rfl, fun h => ?_⟩
+  have hr := step_refines d m (.entwith k n)
+  rw [← step_noPh fx d m h] at hr
+  simp only [refStep, Prod.mk.injEq] at hr
+  exact ⟨hr.1.symm, hr.2.symm⟩
+
+/-- **`entry(k).key()`** with the classification: occupied iff the reference contains the key; nothing changes. -/
+theorem T16_refine_entkey (fx : Fix) (d : Dialect) (m : Items) (k : Nat) (h : NoPh m) :
+    (step fx d m (.entkey k)).1 = .bool (contains (abs m) k) ∧ (step fx d m (.entkey k)).2 = m := by
+  have hr := step_refines d m (.entkey k)
+  rw [← step_noPh fx d m h] at hr
+  simp only [refStep, Prod.mk.injEq] at hr
+  refine ⟨hr.1.symm, ?_⟩
+  rw [step_noPh fx d m h]
+  simp only [step, entryOf_repaired]
+
+/-- The code as it is on a placeholder (the class of the known findings F19 / F20, seen through the rest of
+    the Entry API): `Table::entry` is `Occupied` holding `Item::None`, so `remove` returns and deletes the
+    placeholder and `get_mut` stores a value where the reference's entry is vacant; `InlineTable::entry`
+    hands out the value `{}` it has just written. -/
+theorem T16_finding_entry_api_on_placeholder :
+    (run current .table [] [.idxmut 0, .entrem 0]).1 = [.slot .placeholder, .opt (some .placeholder)] ∧
+    (refRun .table [] [.idxmut 0, .entrem 0]).1 = [.slot .placeholder, .opt none] ∧
+    (run current .tablelike [] [.idxmut 0, .entmut 0 1, .get 0]).1 =
+      [.slot .placeholder, .opt (some .placeholder), .opt (some (.item (.int 1)))] ∧
+    (refRun .tablelike [] [.idxmut 0, .entmut 0 1, .get 0]).1 = [.slot .placeholder, .opt none, .opt none] ∧
+    (run current .inline [] [.idxmut 0, .entget 0, .len]).1 =
+      [.slot .placeholder, .kv (some (0, .item .tbl)), .nat 1] ∧
+    (refRun .inline [] [.idxmut 0, .entget 0, .len]).1 = [.slot .placeholder, .kv none, .nat 0] ∧
+    (run current .inline [] [.idxmut 0, .entins 0 1]).1 = [.slot .placeholder, .opt (some (.item .tbl))] ∧
+    (refRun .inline [] [.idxmut 0, .entins 0 1]).1 = [.slot .placeholder, .opt none] := by
+  decide
+
 /-! ## keys are unique; `len` counts the keys whose lookup succeeds -/
 
 def KeysNodup (m : Items) : Prop := (m.map (·.1)).Nodup
@@ -1007,6 +1261,22 @@ theorem nodup_extend (kvs : List (Nat × Slot)) (m : Items) (h : KeysNodup m) : 
     simp only [imExtend, List.foldl_cons] at ih ⊢
     exact ih _ (nodup_insert m h kv.1 kv.2)
 
+theorem nodup_orInsert (fx : Fix) (d : Dialect) (m : Items) (h : KeysNodup m) (k n : Nat) :
+    KeysNodup (orInsertStep fx d m k n).2 := by
+  simp only [orInsertStep]
+  cases hg : imGet m k with
+  | none => exact nodup_push m h k _ hg
+  | some s => cases s with
+    | placeholder =>
+      cases d <;> cases fx.entry <;> cases fx.inlineEntry <;> first | exact h | exact nodup_set m h k _
+    | item v => exact h
+
+theorem nodup_entryOf (fx : Fix) (d : Dialect) (m : Items) (h : KeysNodup m) (k : Nat) :
+    KeysNodup (entryOf fx d m k).2 := by
+  rcases entryOf_state fx d m k with he | ⟨_, he⟩
+  · rw [he]; exact h
+  · rw [he]; exact nodup_set m h k _
+
 /-- every call keeps the keys unique (either configuration of the model) -/
 theorem nodup_step (fx : Fix) (d : Dialect) (m : Items) (h : KeysNodup m) (op : Op) :
     KeysNodup (step fx d m op).2 := by
@@ -1029,14 +1299,30 @@ theorem nodup_step (fx : Fix) (d : Dialect) (m : Items) (h : KeysNodup m) (op : 
   | hasv k => cases d <;> exact h
   | hast k => cases d <;> exact h
   | clear => simp [step, KeysNodup]
-  | entry k n =>
+  | entry k n => exact nodup_orInsert fx d m h k n
+  | entwith k n => exact nodup_orInsert fx d m h k n
+  | entrem k =>
     simp only [step]
-    cases hg : imGet m k with
-    | none => exact nodup_push m h k _ hg
-    | some s => cases s with
-      | placeholder =>
-        cases d <;> cases fx.entry <;> cases fx.inlineEntry <;> first | exact h | exact nodup_set m h k _
-      | item v => exact h
+    have he := nodup_entryOf fx d m h k
+    cases (entryOf fx d m k).1 with
+    | none => exact he
+    | some s =>
+      simp only [shiftRemove_eq_eraseP]
+      exact nodup_sublist _ _ he List.eraseP_sublist
+  | entins k n =>
+    simp only [step]
+    have he := nodup_entryOf fx d m h k
+    cases (entryOf fx d m k).1 with
+    | none => exact nodup_insert _ he k _
+    | some s => exact nodup_set _ he k _
+  | entget k => exact nodup_entryOf fx d m h k
+  | entmut k n =>
+    simp only [step]
+    have he := nodup_entryOf fx d m h k
+    cases (entryOf fx d m k).1 with
+    | none => exact he
+    | some s => exact nodup_set _ he k _
+  | entkey k => exact nodup_entryOf fx d m h k
   | entocc k =>
     simp only [step]
     cases hg : imGet m k with
